@@ -25,11 +25,14 @@ State layout = the MPT leaves the mechanism touches: accounts, `provider:<id>` n
 (a miner's / sharder's pool is part of its provider node: `leafOf`), the validators partition.
 
 Code quirks that are modelled because they are what the code does:
-* `ShutDown` authorises **after** mutating and saving; the already-shut-down branch (with its refresh) runs **before**
-  any authorisation;
+* (`ShutDown` authorises first, like `Kill`, since repo commit 40a4a9f; before, the already-shut-down branch with its
+  refresh ran before any authorisation;)
 * `shutdownValidator`'s refresh closure reads the **blobber** stake pool of the same id;
-* `storagesc` loads the provider node with a non-cacheable type: when the id belongs to a miner or sharder (whose
-  node sits in the state cache) `StateContext.GetTrieNode` panics (`Err.panicNotCopyable`);
+* `storagesc` reads `provider:<req.ID>` before any authorisation; when the id belongs to a miner or sharder the stored
+  bytes are decoded as a storage record (since repo commit e59baf9; `GetTrieNode` used to panic on the cached
+  `MinerNode`): `getBlobber` sees the provider type and answers "provider is miner should be blobber" (`wrongKind`);
+  as a `ValidationNode` they decode to an EMPTY provider (the `Provider` field sits one level deeper in a `MinerNode`),
+  whose stake pool does not exist (`notFound`). Nothing is written in either case;
 * `killValidator` / `shutdownValidator` do not check the provider type of the node they load (`xkind`: the harness
   does not drive that branch with an authorised caller; the model stops with `Err.crossKind`);
 * (until repo commit fc9e9de `zcnsc.StakePool` inherited `stakepool.StakePool.Save` and lock / unlock wrote a record
@@ -127,7 +130,6 @@ inductive Err where
   | badSlash | coin (e : Coin.Err) | reward (e : StakePool.Err)
   | lockZero | lockSmall | lockLarge | maxDelegates | noTokens | lowBalance
   | tooEarly | offers | noRewards | exists
-  | panicNotCopyable
 deriving DecidableEq, Repr, Inhabited
 
 def Err.tag : Err → String
@@ -138,7 +140,6 @@ def Err.tag : Err → String
   | .lockZero => "lock-zero" | .lockSmall => "lock-small" | .lockLarge => "lock-large"
   | .maxDelegates => "max-delegates" | .noTokens => "no-tokens" | .lowBalance => "low-balance"
   | .tooEarly => "too-early" | .offers => "offers" | .noRewards => "no-rewards" | .exists => "exists"
-  | .panicNotCopyable => "panic"
 
 def liftC {α} : Except Coin.Err α → Except Err α
   | .ok a => .ok a
@@ -237,8 +238,7 @@ def loadBlobber (s : State) (r : Req) : Except Err Loaded :=
   match kvGet s.provs r.reqId with
   | none => .error .notFound
   | some p =>
-    if p.kind = .miner ∨ p.kind = .sharder then .error .panicNotCopyable
-    else if p.kind ≠ .blobber then .error .wrongKind
+    if p.kind ≠ .blobber then .error .wrongKind
     else match getSP s .blobber r.reqId with
       | none => .error .notFound
       | some sp => .ok ⟨r.reqId, p, sp, s⟩
@@ -249,7 +249,7 @@ def loadValidator (cfg : Cfg) (s : State) (r : Req) : Except Err Loaded :=
   match kvGet s.provs r.reqId with
   | none => .error .notFound
   | some p =>
-    if p.kind = .miner ∨ p.kind = .sharder then .error .panicNotCopyable
+    if p.kind = .miner ∨ p.kind = .sharder then .error .notFound   -- decodes to an empty provider: no such stake pool
     else
       let s1 := if cfg.demeter then { s with vpart := s.vpart.filter (· ≠ r.reqId) } else s
       match getSP s1 p.kind r.reqId with
@@ -289,13 +289,15 @@ def provKill (load : State → Req → Except Err Loaded) (refresh : Option (Sta
       | .error e => .err e
       | .ok sp' => .done (putSP L.st p'.kind (key.eval r L.pid) sp') L.pid p' sp'
 
-/-- `provider.ShutDown` (shutdown.go:17-69): already-branch first, authorisation last. -/
+/-- `provider.ShutDown` (shutdown.go:17-69): load, authorise (owner or the loaded pool's delegate wallet), then the
+already-killed-or-shut-down branch, else flag, `Kill` with the slash, save. -/
 def provShutDown (load : State → Req → Except Err Loaded) (refresh : Option (State → Req → Except Err State))
     (owner : Id) (slash : F64) (key : SaveKey) (s : State) (r : Req) : PRes :=
   match load s r with
   | .error e => .err e
   | .ok L =>
-    if L.p.killed || L.p.shutDown then
+    if ¬ (owner = r.caller ∨ L.sp.wallet = some r.caller) then .err .unauthorized
+    else if L.p.killed || L.p.shutDown then
       match refresh with
       | none => .already L.st
       | some f =>
@@ -306,10 +308,7 @@ def provShutDown (load : State → Req → Except Err Loaded) (refresh : Option 
       let p' := { L.p with shutDown := true }
       match spKill L.sp slash with
       | .error e => .err e
-      | .ok sp' =>
-        let st' := putSP L.st p'.kind (key.eval r L.pid) sp'
-        if owner = r.caller ∨ sp'.wallet = some r.caller then .done st' L.pid p' sp'
-        else .err .unauthorized
+      | .ok sp' => .done (putSP L.st p'.kind (key.eval r L.pid) sp') L.pid p' sp'
 
 def putProv (s : State) (id : Id) (p : Prov) : State := { s with provs := kvSet s.provs id p }
 def delProv (s : State) (id : Id) : State := { s with provs := kvDel s.provs id }
@@ -412,8 +411,7 @@ def refreshAfter (s : State) (k : Kind) (pid : Id) : Except Err Unit :=
     match kvGet s.provs pid with
     | none => .error .notFound
     | some p =>
-      if p.kind = .miner ∨ p.kind = .sharder then .error .panicNotCopyable
-      else if p.kind ≠ .blobber then .error .wrongKind else .ok ()
+      if p.kind ≠ .blobber then .error .wrongKind else .ok ()
   | _ => .ok ()
 
 /-- balance of an optional delegate pool (`poolStakeBefore` of `validateLockRequest`). -/
@@ -587,7 +585,7 @@ def addOffers (s : State) (b1 b2 : Id) (offer : Nat) : Except Err State :=
 /-! ## the engine around a contract call -/
 
 inductive Status where
-  | ok | fail (e : Err) | reject | panic
+  | ok | fail (e : Err) | reject
 deriving DecidableEq, Repr
 
 def bumpNonce (a : Ledger.Accts) (i : Id) : Ledger.Accts :=
@@ -595,10 +593,9 @@ def bumpNonce (a : Ledger.Accts) (i : Id) : Ledger.Accts :=
   Ledger.set a i { x with nonce := x.nonce + 1 }
 
 /-- `updateState` for a contract call without fee: a chargeable error keeps only the nonce increment; a queued transfer
-that cannot be applied rejects the transaction; a panic in the contract goroutine kills the process. -/
+that cannot be applied rejects the transaction. -/
 def exec (s : State) (sender : Id) (r : Except Err (State × List Ledger.Transfer)) : State × Status :=
   match r with
-  | .error .panicNotCopyable => (s, .panic)
   | .error e => ({ s with accts := bumpNonce s.accts sender }, .fail e)
   | .ok (s', trs) =>
     match Ledger.applyTransfers s.accts trs with
